@@ -16,7 +16,7 @@
 From MptV Require Import Base.Mem Base.Tactics C13.QueueModel C13.QueueSpec C13.QueueProofs C13.QueueAlign C13.IoQueueProofs
   Cobs.CobsModel Cobs.DecModel Cobs.EncProofs Cobs.EncTheorems Cobs.DecProofs Cobs.DecCall Cobs.DecHistory
   Cobs.DecLive Cobs.DecStream Cobs.QueueCodec Cobs.StreamSpec Cobs.StreamRun Cobs.GlueRun
-  Cobs.WriterHistory Cobs.ReaderHistory Cobs.ReaderStream Cobs.ReaderLive Cobs.GlueProofs Cobs.GlueLive.
+  Cobs.EncShift Cobs.QueuePushProofs Cobs.WriterHistory Cobs.ReaderHistory Cobs.ReaderStream Cobs.ReaderLive Cobs.GlueProofs Cobs.GlueLive.
 Local Open Scope nat_scope.
 
 (* ---------- counting delimiters ---------- *)
@@ -134,4 +134,249 @@ Proof.
     destruct (grecv_delivers v rs pre tl z d' Hi Est ltac:(split; [exact Hl|split; [exact Hu|exact Hpz]]) H) as (-> & _ & _).
     destruct Hz as [[_ Hh]|[Hz _]]; [|lia]. split; [reflexivity|]. split; [exact Hh|]. lia.
   - intros Hnone. destruct Hz as [[_ Hh]|[Hz Hh]]; [lia|]. split; [exact Hz|]. split; [exact Hh|]. lia.
+Qed.
+
+(* ---------- one mpt_stream_dispatch, in any reachable state ---------- *)
+Lemma held_pend d : held d = 1 -> pend d <> [].
+Proof. unfold held, pend. destruct (dmsg (dq_st d)); [discriminate|discriminate]. Qed.
+
+Theorem gdisp_count v w g z m w' : grel v w g -> gdisp v w = Ok (z, m, w') ->
+  (1 <= navail (gr w) -> exists x, m = Some x) /\ (navail (gr w) = 0 -> m = None) /\
+  navail (gr w') = navail (gr w) - 1.
+Proof.
+  intros Hg H. pose proof (stream_of_rel v w g Hg) as Hstream.
+  destruct Hg as (_ & _ & (Hi & Est & Hd & _ & Hmsgs) & _).
+  destruct (rh_cinv v (g_rs g) Hi Est) as (_ & F & Hc). rewrite Hd in Hc.
+  unfold gdisp in H.
+  (* the second half: hand over the held message of [d0], look ahead *)
+  assert (Hgo : forall rs0 d0, rh_inv v rs0 -> rh_stop rs0 = false -> rh_d rs0 = d0 ->
+            sstream v (dq_st d0) (contents (dq_q d0)) -> (exists x, dqueue_message d0 = Some x) ->
+            (do '(z2, d2) <- grecv v d0; Ok ((if (0 <? z2)%Z then RETRY else 0%Z), dqueue_message d0, mkgw (gw w) d2 (gwire w))) = Ok (z, m, w') ->
+            (exists x, m = Some x) /\ navail (gr w') = zc (unread d0)).
+  { intros rs0 d0 Hi0 Es0 Hd0 Hs0 (x & Hx) E.
+    destruct (grecv v d0) as [[z2 d2]| |] eqn:Eg; [|discriminate|discriminate]. cbn [bind] in E. inversion E; subst z m w'; clear E.
+    split; [exists x; exact Hx|]. cbn [gr].
+    destruct (grecv_count v rs0 z2 d2 Hi0 Es0 ltac:(rewrite Hd0; exact Hs0) ltac:(rewrite Hd0; exact Eg)) as [H1 H0].
+    rewrite Hd0 in H1, H0. unfold navail.
+    destruct (Nat.eq_dec (zc (unread d0)) 0) as [Hz|Hz].
+    - destruct (H0 Hz) as (_ & Hh & Hu). lia.
+    - destruct (H1 ltac:(lia)) as (_ & Hh & Hu). lia. }
+  unfold navail at 1 2 4. unfold held at 1 2 3.
+  destruct (dmsg (dq_st (gr w))) as [c|] eqn:Em.
+  - (* a message is held *)
+    cbn [bind] in H.
+    destruct (Hgo (g_rs g) (gr w) Hi Est Hd Hstream
+                ltac:(rewrite (dqueue_message_decoded v F (gr w) Hc), Em; eexists; reflexivity) H) as [Hm Hn].
+    split; [intros _; exact Hm|]. split; [lia|]. lia.
+  - (* receive first *)
+    destruct (grecv v (gr w)) as [[zf d0]| |] eqn:Eg; [|discriminate|discriminate]. cbn [bind] in H.
+    destruct (grecv_count v (g_rs g) zf d0 Hi Est ltac:(rewrite Hd; exact Hstream) ltac:(rewrite Hd; exact Eg)) as [H1 H0].
+    rewrite Hd in H1, H0.
+    destruct (Nat.eq_dec (zc (unread (gr w))) 0) as [Hz|Hz].
+    + destruct (H0 Hz) as (Hzf & Hh & Hu).
+      assert (E : m = None /\ w' = mkgw (gw w) d0 (gwire w)).
+      { destruct (zf <? 0)%Z eqn:E1; [inversion H; split; reflexivity|].
+        destruct (zf =? 0)%Z eqn:E2; [inversion H; split; reflexivity|]. lia. }
+      destruct E as [-> ->]. cbn [gr]. unfold navail. rewrite Hz, Hh, Hu.
+      split; [lia|]. split; [reflexivity|reflexivity].
+    + destruct (H1 ltac:(lia)) as (-> & Hh & Hu). cbn [Z.ltb Z.eqb Z.compare] in H.
+      destruct (grecv_sim v (g_rs g) 1%Z d0 Hi Est ltac:(rewrite Hd; exact Eg)) as (rops & Hi0 & Hd0 & _ & _ & Hns0).
+      destruct (Hns0 ltac:(rewrite Hd; exact Hstream)) as [Hst0 Hs0].
+      destruct (rh_cinv v _ Hi0 Hst0) as (_ & F0 & Hcc0). rewrite Hd0 in Hcc0.
+      destruct (pend_single v F0 d0 Hcc0 (held_pend d0 Hh)) as (x & _ & Hx).
+      destruct (Hgo (rh_run v (g_rs g) rops) d0 Hi0 Hst0 Hd0 Hs0 ltac:(exists x; exact Hx) H) as [Hm Hn].
+      split; [intros _; exact Hm|]. split; [lia|]. lia.
+Qed.
+
+(* ---------- the dispatch loop of a drain round ---------- *)
+Lemma navail_bound d : qinv (dq_q d) -> navail d <= S (qlen (dq_q d)).
+Proof.
+  intros Hq. unfold navail, unread. pose proof (zc_le (skipn (dcurr (dq_st d)) (contents (dq_q d)))) as H.
+  rewrite skipn_length, contents_length in H by exact Hq. unfold held. destruct (dmsg (dq_st d)); lia.
+Qed.
+
+Theorem gdisp_all_count v : forall fuel w g got w' got', grel v w g -> navail (gr w) <= fuel ->
+  gdisp_all fuel v w got = Ok (w', got') ->
+  length got' = length got + navail (gr w) /\ navail (gr w') = 0.
+Proof.
+  induction fuel as [|fuel IH]; intros w g got w' got' Hg Hn H; cbn [gdisp_all] in H.
+  - inversion H; subst. split; lia.
+  - destruct (gdisp v w) as [[[z m] w1]| |] eqn:E; [|discriminate|discriminate]. cbn [bind] in H.
+    destruct (gdisp_count v w g z m w1 Hg E) as (H1 & H0 & Hn1).
+    destruct (disp_keeps v w g z m w1 Hg E) as (g1 & Hg1 & _).
+    destruct (Nat.eq_dec (navail (gr w)) 0) as [Hz|Hz].
+    + rewrite (H0 Hz) in H. inversion H; subst. split; lia.
+    + destruct (H1 ltac:(lia)) as (x & ->).
+      destruct (IH w1 g1 (got ++ [x]) w' got' Hg1 ltac:(lia) H) as [Hl Hq].
+      rewrite app_length in Hl. cbn [length] in Hl. split; [lia|exact Hq].
+Qed.
+
+(* ---------- a world in which nothing can move has delivered everything ---------- *)
+Lemma writer_flushed_count v ws : wh_inv0 v ws -> edone (eq_st (wh_e ws)) = 0 ->
+  zc (wh_sent ws) = length (wh_done ws).
+Proof.
+  intros [(Hlt & pre & Hfp & [[Hq Hl] Hinv])|(_ & _ & _ & Hs0 & Hd0 & _)] Hd; [|rewrite Hs0, Hd0; reflexivity].
+  rewrite <- (zc_frames v _ _ Hfp).
+  destruct Hinv as [H0 Hdn Hb Hcn | bs open Hli Hdn Hb]; cbn [shift_st edone escr] in *; rewrite Hd, Nat.add_0_r in Hdn.
+  - apply (f_equal (@length _)) in Hb as Hlen. rewrite app_length in Hlen.
+    assert (Hc : contents (eq_q (wh_e ws)) = []) by (apply length_zero_iff_nil; lia).
+    rewrite Hc, app_nil_r in Hb. rewrite Hb. reflexivity.
+  - apply (f_equal (firstn (length (wh_sent ws)))) in Hb.
+    rewrite firstn_app_exact in Hb. rewrite Hdn, firstn_app_exact in Hb. rewrite Hb, zc_app.
+    pose proof (flat_nozero v bs (li_blocks _ _ _ _ _ Hli)) as Hz. apply zc_nozero in Hz. rewrite Hz. lia.
+Qed.
+
+Definition quiet (w : gworld) : Prop :=
+  edone (eq_st (gw w)) = 0 /\ gwire w = [] /\ navail (gr w) = 0.
+
+Theorem glue_quiescent_all v w g : grel v w g -> quiet w -> g_del g = wh_done (g_ws g).
+Proof.
+  intros Hg (Hd & Hw & Hn). pose proof (grel_prefix v w g Hg) as Hpre.
+  destruct Hg as (Hws & He & (Hi & Est & Hrd & Hsent & Hm) & _).
+  pose proof (writer_flushed_count v (g_ws g) Hws ltac:(rewrite He; exact Hd)) as Hc.
+  pose proof (rh_count v (g_rs g) Hi Est) as Hr. rewrite Hrd in Hr.
+  unfold navail in Hn. assert (Hu : zc (unread (gr w)) = 0) by lia. assert (Hh : held (gr w) = 0) by lia.
+  rewrite Hw, app_nil_r in Hsent. rewrite Hsent, Hr, Hu, Hm, app_length, pend_length, Hh in Hc.
+  rewrite Hpre. replace (length (g_del g)) with (length (wh_done (g_ws g))) by lia. apply firstn_all.
+Qed.
+
+(* ---------- GDrain ends in a quiet world ---------- *)
+Lemma gdisp_all_same v : forall fuel w g got w' got', grel v w g ->
+  gdisp_all fuel v w got = Ok (w', got') -> gw w' = gw w /\ gwire w' = gwire w.
+Proof.
+  induction fuel as [|fuel IH]; intros w g got w' got' Hg H; cbn [gdisp_all] in H.
+  - inversion H; subst. split; reflexivity.
+  - destruct (gdisp v w) as [[[z m] w1]| |] eqn:E; [|discriminate|discriminate]. cbn [bind] in H.
+    destruct (gdisp_sim v w g z m w1 Hg E) as (g1 & Hg1 & _ & Hgw & Hwire & _).
+    destruct m as [x|].
+    + destruct (IH w1 g1 _ w' got' Hg1 H) as [H1 H2]. split; congruence.
+    + inversion H; subst. split; assumption.
+Qed.
+
+Definition inflight (w : gworld) : nat := edone (eq_st (gw w)) + length (gwire w).
+
+(* one round of flush / poll / dispatch with a kernel that takes what it is offered *)
+Lemma drain_round v w g got : variant_ok v -> grel v w g ->
+  forall z1 w1 n1 z2 w2 n2 w3 got3,
+  (if edone (eq_st (gw w)) =? 0 then Ok (0%Z, w, 0) else gflush w (Z.of_nat (edone (eq_st (gw w))))) = Ok (z1, w1, n1) ->
+  (match gwire w1 with [] => Ok (0%Z, w1, 0) | _ => gpoll w1 (length (gwire w1)) end) = Ok (z2, w2, n2) ->
+  gdisp_all (S (qlen (dq_q (gr w2)))) v w2 got = Ok (w3, got3) ->
+  edone (eq_st (gw w3)) = 0 /\ navail (gr w3) = 0 /\
+  (inflight w = 0 -> n1 = 0 /\ n2 = 0 /\ gwire w3 = [] /\ length got3 = length got + navail (gr w)) /\
+  (1 <= inflight w -> (1 <= n1 \/ 1 <= n2) /\ inflight w3 <= inflight w - 1).
+Proof.
+  intros Hv Hg z1 w1 n1 z2 w2 n2 w3 got3 E1 E2 E3.
+  pose proof Hg as (Hws & He & _).
+  (* flush *)
+  assert (K1 : exists g1, grel v w1 g1 /\ edone (eq_st (gw w1)) = 0 /\ length (gwire w1) = inflight w /\
+                 n1 = edone (eq_st (gw w)) /\ gr w1 = gr w /\ (edone (eq_st (gw w)) = 0 -> w1 = w)).
+  { destruct (Nat.eqb_spec (edone (eq_st (gw w))) 0) as [Hz|Hz].
+    - inversion E1; subst. exists g. unfold inflight. rewrite Hz. split; [exact Hg|]. split; [reflexivity|].
+      split; [reflexivity|]. split; [reflexivity|]. split; [reflexivity|]. intros _; reflexivity.
+    - destruct (flush_keeps v w g _ z1 w1 n1 Hv Hg E1) as (g1 & Hg1 & _).
+      destruct (gflush_all v w (g_ws g) (Z.of_nat (edone (eq_st (gw w)))) z1 w1 n1 Hws He (Z.le_refl _) E1) as (Hn & Hd & Hl).
+      destruct (gflush_sim v w _ (g_ws g) z1 w1 n1 Hws He E1) as (_ & _ & _ & _ & _ & _ & _ & Hgr & _).
+      exists g1. unfold inflight. split; [exact Hg1|]. split; [exact Hd|]. split; [lia|]. split; [exact Hn|].
+      split; [exact Hgr|]. intros; lia. }
+  destruct K1 as (g1 & Hg1 & Hd1 & Hl1 & Hn1 & Hgr1 & Hsame1).
+  (* poll *)
+  assert (K2 : exists g2, grel v w2 g2 /\ edone (eq_st (gw w2)) = 0 /\
+                 (inflight w = 0 -> n2 = 0 /\ w2 = w1) /\
+                 (1 <= inflight w -> 1 <= n2 /\ length (gwire w2) <= inflight w - 1)).
+  { destruct (gwire w1) as [|b wire] eqn:Ew.
+    - inversion E2; subst. exists g1. cbn [length] in Hl1. split; [exact Hg1|]. split; [exact Hd1|].
+      split; [intros _; split; reflexivity|]. intros; lia.
+    - destruct (poll_keeps v w1 g1 _ z2 w2 n2 Hg1 E2) as (g2 & Hg2 & _).
+      destruct (gpoll_progress v w1 g1 (length (b :: wire)) z2 w2 n2 Hg1 ltac:(cbn [length]; lia) ltac:(rewrite Ew; discriminate) E2) as (Hn2 & Hw2).
+      pose proof Hg1 as (_ & _ & (Hi1 & Est1 & Hrd1 & _) & _).
+      destruct (rh_cinv v _ Hi1 Est1) as (Hq1 & F1 & Hc1). rewrite Hrd1 in Hq1, Hc1.
+      destruct (gpoll_state v w1 _ z2 w2 n2 F1 Hq1 Hc1 E2) as (Hgw2 & _).
+      exists g2. split; [exact Hg2|]. split; [rewrite Hgw2; exact Hd1|].
+      split; [intros H0; cbn [length] in Hl1; lia|].
+      intros _. split; [exact Hn2|]. rewrite Hw2, Ew, skipn_length. lia. }
+  destruct K2 as (g2 & Hg2 & Hd2 & H20 & H21).
+  (* dispatch *)
+  pose proof Hg2 as (_ & _ & (Hi2 & Est2 & Hrd2 & _) & _).
+  destruct (rh_cinv v _ Hi2 Est2) as (Hq2 & _). rewrite Hrd2 in Hq2.
+  destruct (gdisp_all_count v _ w2 g2 got w3 got3 Hg2 (navail_bound _ Hq2) E3) as [Hlen Hn3].
+  destruct (gdisp_all_same v _ w2 g2 got w3 got3 Hg2 E3) as [Hgw3 Hwire3].
+  split; [rewrite Hgw3; exact Hd2|]. split; [exact Hn3|]. split.
+  - intros H0. unfold inflight in H0. assert (Ew1 : w1 = w) by (apply Hsame1; lia). subst w1.
+    destruct (H20 ltac:(unfold inflight; lia)) as [-> ->]. split; [lia|]. split; [reflexivity|].
+    split; [rewrite Hwire3; apply length_zero_iff_nil; lia|exact Hlen].
+  - intros H1. destruct (H21 H1) as [Hn2 Hl2]. split; [right; exact Hn2|].
+    unfold inflight at 1. rewrite Hgw3, Hd2, Hwire3. cbn [Nat.add]. exact Hl2.
+Qed.
+
+Theorem gdrain_quiet v : variant_ok v -> forall fuel w g got w' got', grel v w g ->
+  (inflight w + 2 <= fuel \/ (navail (gr w) = 0 /\ inflight w + 1 <= fuel)) ->
+  gdrain fuel v w got = Ok (w', got') -> quiet w'.
+Proof.
+  intros Hv. induction fuel as [|fuel IH]; intros w g got w' got' Hg Hf H; [lia|].
+  cbn [gdrain] in H.
+  destruct (if edone (eq_st (gw w)) =? 0 then Ok (0%Z, w, 0) else gflush w (Z.of_nat (edone (eq_st (gw w))))) as [[[z1 w1] n1]| |] eqn:E1;
+    [|discriminate|discriminate]. cbn [bind] in H.
+  destruct (match gwire w1 with [] => Ok (0%Z, w1, 0) | _ :: _ => gpoll w1 (length (gwire w1)) end) as [[[z2 w2] n2]| |] eqn:E2;
+    [|discriminate|discriminate]. cbn [bind] in H.
+  destruct (gdisp_all (S (qlen (dq_q (gr w2)))) v w2 got) as [[w3 got3]| |] eqn:E3; [|discriminate|discriminate]. cbn [bind] in H.
+  destruct (drain_round v w g got Hv Hg z1 w1 n1 z2 w2 n2 w3 got3 E1 E2 E3) as (Hd3 & Hn3 & H0 & H1).
+  (* the world after the round is reachable too *)
+  assert (K3 : exists g3, grel v w3 g3).
+  { assert (E : gdrain 1 v w got = Ok (w3, got3)).
+    { cbn [gdrain]. rewrite E1. cbn [bind]. rewrite E2. cbn [bind]. rewrite E3. cbn [bind].
+      destruct ((n1 =? 0) && (n2 =? 0) && (length got3 =? length got)); reflexivity. }
+    destruct (drain_keeps v Hv 1 w g got w3 got3 Hg E) as (_ & _ & g3 & Hg3 & _). exists g3. exact Hg3. }
+  destruct K3 as (g3 & Hg3).
+  destruct (Nat.eq_dec (inflight w) 0) as [Hz|Hz].
+  - destruct (H0 Hz) as (-> & -> & Hw3 & Hlen). cbn [Nat.eqb andb] in H.
+    destruct (Nat.eqb_spec (length got3) (length got)) as [Heq|Hne].
+    + inversion H; subst. split; [exact Hd3|]. split; [exact Hw3|exact Hn3].
+    + apply (IH w3 g3 got3 w' got' Hg3); [|exact H]. right. split; [exact Hn3|].
+      unfold inflight. rewrite Hd3, Hw3. cbn [length Nat.add].
+      destruct Hf as [Hf|[Hna _]]; [lia|lia].
+  - destruct (H1 ltac:(lia)) as [Hmove Hless].
+    assert (Hb : (n1 =? 0) && (n2 =? 0) && (length got3 =? length got) = false).
+    { destruct Hmove as [Hm|Hm]; [destruct n1; [lia|reflexivity]|destruct n2; [lia|]; rewrite andb_false_r; reflexivity]. }
+    rewrite Hb in H. apply (IH w3 g3 got3 w' got' Hg3); [|exact H]. right. split; [exact Hn3|].
+    destruct Hf as [Hf|[_ Hf]]; lia.
+Qed.
+
+(* GDrain hands over every message the writer has completed *)
+Theorem gdrain_delivers_all v w g w' got : variant_ok v -> grel v w g ->
+  gdrain (gdrain_fuel w) v w [] = Ok (w', got) ->
+  quiet w' /\ g_del g ++ got = wh_done (g_ws g).
+Proof.
+  intros Hv Hg H.
+  assert (Hq : quiet w').
+  { apply (gdrain_quiet v Hv (gdrain_fuel w) w g [] w' got Hg); [|exact H]. left.
+    destruct Hg as (Hws & He & _). pose proof (wh_inv0_einv v _ Hws) as [_ Hl]. rewrite He in Hl.
+    unfold gdrain_fuel, inflight. lia. }
+  split; [exact Hq|].
+  destruct (drain_keeps v Hv (gdrain_fuel w) w g [] w' got Hg H) as (more & Hm & g' & Hg' & Hd' & Hdn' & _).
+  cbn [app] in Hm. subst more. rewrite <- Hd', <- Hdn'. apply (glue_quiescent_all v w' g' Hg' Hq).
+Qed.
+
+(* ... from fresh streams, after ANY history of pushes, flushes, polls and dispatches with ANY
+   kernel behaviour: a final drain delivers exactly the completed messages *)
+Theorem glue_history_drain_complete v wcap woff rcap roff ops w' sp' del' : variant_ok v ->
+  gfold v (gworld_init wcap woff rcap roff) (mkgsp [] []) [] (ops ++ [GDrain]) = Ok (w', sp', del') ->
+  del' = sp_done sp' /\ quiet w'.
+Proof.
+  intros Hv H.
+  assert (Hsplit : forall ops1 w0 sp0 del0 o, gfold v w0 sp0 del0 (ops1 ++ [o]) = Ok (w', sp', del') ->
+            exists w1 sp1 del1 z got, gfold v w0 sp0 del0 ops1 = Ok (w1, sp1, del1) /\ gstep v w1 o = Ok (w', z, got) /\
+              sp' = gspec_step sp1 o z /\ del' = del1 ++ got).
+  { induction ops1 as [|o1 ops1 IH]; intros w0 sp0 del0 o E; cbn [app gfold] in E.
+    - destruct (gstep v w0 o) as [[[w1 z] got]| |] eqn:Es; [|discriminate|discriminate]. cbn [bind] in E. inversion E; subst.
+      exists w0, sp0, del0, z, got. repeat split; reflexivity || assumption.
+    - destruct (gstep v w0 o1) as [[[w1 z] got]| |] eqn:Es; [|discriminate|discriminate]. cbn [bind] in E.
+      destruct (IH _ _ _ _ E) as (w2 & sp2 & del2 & z2 & got2 & E2 & Es2 & Hsp & Hdel).
+      exists w2, sp2, del2, z2, got2. cbn [gfold]. rewrite Es. cbn [bind]. repeat split; assumption. }
+  destruct (Hsplit ops _ _ _ _ H) as (w1 & sp1 & del1 & z & got & E1 & Es & -> & ->).
+  destruct (glue_history_safe v wcap woff rcap roff ops w1 sp1 del1 Hv E1) as (_ & g1 & Hg1 & Hd1 & Hdn1 & _).
+  cbn [gstep] in Es.
+  destruct (gdrain (gdrain_fuel w1) v w1 []) as [[w2 got2]| |] eqn:Ed; [|discriminate|discriminate]. cbn [bind] in Es.
+  inversion Es; subst w2 z got2. cbn [gspec_step].
+  destruct (gdrain_delivers_all v w1 g1 w' got Hv Hg1 Ed) as [Hq Hall].
+  split; [rewrite <- Hd1, <- Hdn1; exact Hall|exact Hq].
 Qed.
